@@ -601,6 +601,52 @@ def rule_call_is_pure(rep, repo, classes, rule, tier):
   return n
 
 
+def rule_follows_the_magnitude(rep, repo, configs, rule):
+  """With alpha='auto' the threshold and the scale are derived from the data
+  alone, so the quantizer follows the magnitude of its input: the emitted
+  value (scale * code) and the recorded scale are homogeneous of degree 1 in
+  x - the code is the same for x, 1000*x and x/1000, huge or tiny.  Decided
+  by degree typing of the forward term (qkstat/homog.py): an additive
+  constant next to a data-sized quantity inside a rounding, comparison or
+  quotient has no degree."""
+  from .. import homog
+  from ..pe import show_term
+  mod = repo.module(quant.QMOD)
+  n = 0
+  for cls, kw in configs:
+    cfg0 = "%s(%s)" % (cls, oracle.show_kwargs(kw))
+    unit = "%s::%s.__call__" % (mod.relpath, cls)
+    try:
+      b = quant.build(repo, cls, kw)
+    except ConfigRejected:
+      continue
+    # (the training arm of the stochastic quantizers emits a random draw
+    # whose probabilities are normalised with an epsilon: not part of the
+    # clause)
+    for phase in ("infer",):
+      cfg = cfg0
+      sc = b.obj.attrs.get("scale")
+      try:
+        d_out = homog.Degree(phase)
+        deg = d_out(b.term)
+        d_sc = homog.Degree(phase)
+        deg_s = d_sc(b.pe.as_term(sc)) if sc is not None else None
+      except homog.Inconclusive as e:
+        rep.extra.setdefault("magnitude_inconclusive", {})[cfg] = str(e)
+        continue
+      n += 1
+      loc = b.pe.loc_of(b.term)
+      ok = deg in (1, homog.ANY) and deg_s in (1, homog.ANY)
+      why = d_out.why if d_out.why is not None else d_sc.why
+      rep.check(ok, rule, unit, "does-not-follow-the-magnitude",
+                "%s: output has degree %s and the recorded scale degree %s "
+                "in x (expected 1 and 1: codes independent of the magnitude "
+                "of the data)%s" % (
+                    cfg, deg, deg_s, "; no degree: %s" % show_term(why)[:200]
+                    if why is not None else ""), loc=loc, instance=cfg)
+  return n
+
+
 def run(rep, repo, tier):
   mod = repo.module(quant.QMOD)
   rep.trusted.append("semantics table of TF/Keras primitives")
@@ -773,6 +819,16 @@ def run(rep, repo, tier):
           (False, True), ((-2, 3), (None, 0), (0, None))):
         yield dict(use_01=use01, alpha=None, min_po2_exponent=mn,
                    max_po2_exponent=mx)
+  if rule_follows_the_magnitude(rep, repo, [
+      ("binary", dict(alpha="auto")), ("binary", dict(alpha="auto",
+                                                      use_01=True)),
+      ("ternary", dict(alpha="auto")),
+      ("ternary", dict(alpha="auto", use_stochastic_rounding=True)),
+      ("ternary", dict(alpha="auto", number_of_unrolls=2)),
+      ("stochastic_ternary", dict(alpha="auto")),
+      ("stochastic_binary", dict(alpha="auto"))], "R11") < 7:
+    raise AnalysisError("instance-count magnitude typing: %r" %
+                        rep.extra.get("magnitude_inconclusive"))
   n7 = rule_installed(rep, repo, ("binary", "ternary", "stochastic_binary",
                                   "stochastic_ternary", "bernoulli"), "R7",
                       tier, installed)
